@@ -80,6 +80,12 @@ func oracleC07(r *rig, res *scnResult) {
 			fail("c07-forbidden-header-served", "the tip is a forbidden header", "not the tip", "tip")
 		}
 	}
+	// (1b) a refused submission leaves the table exactly as it was: store-level digests taken by the rig around every
+	// headers message that STARTS with a forbidden header
+	for _, d := range r.refusedChanged {
+		fail("c07-refused-forbidden-submission-changed-table", "a headers message that starts with a forbidden header (refused as a whole) changed the table: "+d,
+			"table unchanged", d)
+	}
 	// (2) descendants of a forbidden header can only ever be orphans
 	for i, p := range r.tree.parent {
 		anc := false
@@ -751,6 +757,76 @@ func genMismatch(rng *rand.Rand, o genOpts, engine string) *scn {
 
 
 
+
+// genForbiddenFork: the forbidden header F is exactly the header with which a STALE fork would overtake the longest
+// chain. The table holds the honest chain (L headers, work 2 each); the fork leaves it d headers below the tip and is
+// stored STALE — already in the initial table, or delivered right before F in the same headers message; F sits on top
+// of the fork and carries the fork past the honest tip (one header longer, or a heavier header: work 3). F must be
+// refused with the table untouched: the honest chain stays LONGEST_CHAIN, its (reachable) node's chain is what the
+// service serves. The misbehaving node pushes the batch as a by-stander, or answers with it as the sync peer.
+func genForbiddenFork(rng *rand.Rand, o genOpts) *scn {
+	L := 4 + rng.Intn(minInt(o.MaxLen, 12)-3)
+	s := &scn{Engine: "legacy", Sched: "serial", Seed: rng.Int63n(1 << 30), Salt: rng.Uint32(), Parents: linearParents(L)}
+	d := 2 + rng.Intn(minInt(L-2, 3)) // the fork leaves the honest chain d headers below the tip (f = L-d >= 1)
+	f := L - d
+	heavy := rng.Intn(2) == 0
+	m := d // fork headers before F: the fork ties with the honest tip, F makes it longer
+	if heavy {
+		m = d - 1 // one header short of the honest tip, F (work 3) overtakes
+	}
+	var fork []int
+	for j := 0; j < m; j++ {
+		par := f - 1
+		if j > 0 {
+			par = len(s.Parents) - 1
+		}
+		s.Parents = append(s.Parents, par)
+		fork = append(fork, len(s.Parents)-1)
+	}
+	par := f - 1
+	if m > 0 {
+		par = len(s.Parents) - 1
+	}
+	x := len(s.Parents)
+	s.Parents = append(s.Parents, par)
+	evilPath := append(append(seq(0, f), fork...), x)
+	if rng.Intn(2) == 0 { // a descendant of F
+		s.Parents = append(s.Parents, x)
+		evilPath = append(evilPath, x+1)
+	}
+	s.Bits = make([]uint32, len(s.Parents))
+	for i := range s.Bits {
+		s.Bits[i] = defaultBits
+	}
+	if heavy {
+		s.Bits[x] = bitsSmall[2]
+	}
+	s.Forbid = []int{x}
+	s.Cps = []int{0} // height 1, on both branches
+	forkStored := rng.Intn(2) == 0
+	s.Init = seq(0, L)
+	batch := append(append([]int{}, fork...), evilPath[f+m:]...)
+	if forkStored {
+		s.Init = append(s.Init, fork...)
+		if rng.Intn(2) == 0 {
+			batch = append([]int{}, evilPath[f+m:]...) // F first: refused as a whole, the digest clause applies
+		}
+	}
+	s.Nodes = append(s.Nodes, scnNode{Path: evilPath, Pos: len(evilPath), Cap: 2000, Dir: "out", Honest: false, CloseAt: -1, StallAt: -1})
+	s.Nodes = append(s.Nodes, scnNode{Path: seq(0, L), Pos: L, Cap: 2000, Dir: "out", Honest: true, CloseAt: -1, StallAt: -1})
+	if rng.Intn(2) == 0 {
+		// by-stander: the honest node is the sync peer, the misbehaving node pushes its batch unsolicited
+		s.Nodes[0].StallAt = 0
+		s.Steps = append(s.Steps, scnStep{Kind: "connect", Node: 1}, scnStep{Kind: "run"}, scnStep{Kind: "connect", Node: 0},
+			scnStep{Kind: "push", Node: 0, How: "headers", Idx: batch}, scnStep{Kind: "run"})
+	} else {
+		// sync peer: it is asked from the honest tip and answers with its chain after the fork point
+		s.Steps = append(s.Steps, scnStep{Kind: "connect", Node: 0}, scnStep{Kind: "run"}, scnStep{Kind: "connect", Node: 1}, scnStep{Kind: "run"})
+	}
+	timePasses(s)
+	return s
+}
+
 // genHitRun: a node delivers a headers message that holds a forbidden header (at any batch position) and hangs up at
 // once, before the single-threaded manager gets to the message (step `hitrun`). It must still be banned. The node is
 // either a by-stander (an honest node is the sync peer and has synced part or all of the chain) or the sync peer itself
@@ -964,6 +1040,17 @@ var c07Corpus = []struct {
 	{"hit-and-run", []string{"c06 engine=legacy cpoff=0 cps=5 init= forbid=6 sched=serial seed=1 salt=13", "tree parents=0~5,2,6",
 		"node path=0..2,6,7 pos=5 cap=2000 dir=out honest=0 stallat=0", "node path=0..5 pos=6 cap=2 dir=out honest=1",
 		"step connect 1", "step run", "step connect 0", "step hitrun 0 2,6,7", "step run"}},
+	// forbidden header on an overtaking fork: the table holds A1..A3 (LONGEST_CHAIN) and the STALE fork header B2 (#3, on
+	// A1); the forbidden F (#4, on B2, work 3) would carry the fork past A3. It is refused: the table must not change
+	{"forbidden-on-overtaking-fork", []string{"c06 engine=legacy cpoff=0 cps=0 init=0..3 forbid=4 sched=serial seed=1 salt=17",
+		"tree parents=0~2,0,3 bits=207fffff,207fffff,207fffff,207fffff,20400000",
+		"node path=0,3,4 pos=3 cap=2000 dir=out honest=0 stallat=0", "node path=0..2 pos=3 cap=2000 dir=out honest=1",
+		"step connect 1", "step run", "step connect 0", "step push 0 headers 4", "step run"}},
+	// … the fork delivered right before F in the same headers message
+	{"forbidden-fork-same-batch", []string{"c06 engine=legacy cpoff=0 cps=0 init=0..2 forbid=4 sched=serial seed=1 salt=19",
+		"tree parents=0~2,0,3 bits=207fffff,207fffff,207fffff,207fffff,20400000",
+		"node path=0,3,4 pos=3 cap=2000 dir=out honest=0 stallat=0", "node path=0..2 pos=3 cap=2000 dir=out honest=1",
+		"step connect 1", "step run", "step connect 0", "step push 0 headers 3,4", "step run"}},
 }
 
 // genRunPast: two checkpoints c1 < c2 on the honest chain; the misbehaving node's branch matches c1, forks between them
@@ -1033,7 +1120,7 @@ func genRunPast(rng *rand.Rand, o genOpts, engine string) *scn {
 }
 
 func runC07(c *Ctx) error {
-	c.R.Rule = "scenario = honest chain + a misbehaving scripted node whose (otherwise conformant) chain contains a forbidden header at a random height or contradicts a checkpoint, reply caps 1/2/7/2000 and initial stores chosen so that the offending header lands at every batch position; optional second node pushing descendants of the forbidden header unsolicited; a node that sends a headers message holding a forbidden header and hangs up before the manager handles it (by-stander or sync peer); a second offender contradicting the same pending checkpoint with a sibling header that is stored STALE, a low-work fork (easier bits) reaching the pending checkpoint height entirely STALE; recovery scenarios (the violator's header exactly at the pending checkpoint height as last header of its answer, a stand-by honest node with a long chain and a large cap); nodes that IGNORE the stop hash and run an answer past a matching checkpoint, the contradiction of the next checkpoint arriving with a later answer (or, rarely, the same one); 1..2 honest nodes; both engines; 0..n checkpoints; serial (trace compared with the Lean model) and free-running scheduling; non-trivial = the offending header was actually delivered"
+	c.R.Rule = "scenario = honest chain + a misbehaving scripted node whose (otherwise conformant) chain contains a forbidden header at a random height or contradicts a checkpoint, reply caps 1/2/7/2000 and initial stores chosen so that the offending header lands at every batch position; optional second node pushing descendants of the forbidden header unsolicited; a forbidden header that is exactly the overtaking header of a STALE fork (fork in the initial table or delivered right before it in the same message; longer fork or heavier header), with store-level digests around refused submissions; a node that sends a headers message holding a forbidden header and hangs up before the manager handles it (by-stander or sync peer); a second offender contradicting the same pending checkpoint with a sibling header that is stored STALE, a low-work fork (easier bits) reaching the pending checkpoint height entirely STALE; recovery scenarios (the violator's header exactly at the pending checkpoint height as last header of its answer, a stand-by honest node with a long chain and a large cap); nodes that IGNORE the stop hash and run an answer past a matching checkpoint, the contradiction of the next checkpoint arriving with a later answer (or, rarely, the same one); 1..2 honest nodes; both engines; 0..n checkpoints; serial (trace compared with the Lean model) and free-running scheduling; non-trivial = the offending header was actually delivered"
 	l := newSyncModel(c)
 	defer l.Close()
 	if c.Replay != "" {
@@ -1124,7 +1211,10 @@ func runC07(c *Ctx) error {
 		var s *scn
 		kind := "forbidden"
 		if k := rng.Intn(10); k == 9 {
-			switch rng.Intn(4) {
+			switch rng.Intn(5) {
+			case 4:
+				kind = "forbidden-fork"
+				s = genForbiddenFork(rng, o)
 			case 3:
 				kind = "hitrun"
 				s = genHitRun(rng, o)
